@@ -157,6 +157,7 @@ class Check:
                     "distinct_nontrivial": 0, "samples": [], "rule": "", "tlc_runs": [], "harness_runs": []}
         self.assumptions = []
         self.viols = {}  # key -> {case, detail, n}
+        self.evdir = "evidence"
 
     # ---- accumulation
     def add_tlc(self, res, note=""):
@@ -218,8 +219,8 @@ class Check:
             "violations": len(new),
             "known_findings_reproduced": sorted({f["key"] for _, f, _ in matched}),
         }
-        os.makedirs(os.path.join(VERIF, "evidence"), exist_ok=True)
-        with open(os.path.join(VERIF, "evidence", self.pid + ".json"), "w") as fh:
+        os.makedirs(os.path.join(VERIF, self.evdir), exist_ok=True)
+        with open(os.path.join(VERIF, self.evdir, self.pid + ".json"), "w") as fh:
             json.dump(ev, fh, indent=1, sort_keys=True)
         seen = set()
         for key, f, v in matched:
